@@ -264,7 +264,17 @@ func (in *vInst) close() {
 func (in *vInst) inject(conn int, b []byte) (out [][]byte, frame, msg string) {
 	c := in.conns[conn]
 	c.sock.take()
-	frame, msg = vCatch(func() { c.pc.HandlePFCPMsg(b) })
+	done := make(chan struct{})
+	go func() {
+		defer close(done)
+		frame, msg = vCatch(func() { c.pc.HandlePFCPMsg(b) })
+	}()
+	select {
+	case <-done:
+	case <-time.After(30 * time.Second):
+		// the receive loop of the real agent would be blocked for good; the goroutine is abandoned
+		return c.sock.take(), "WEDGE", "HandlePFCPMsg did not return within 30 s"
+	}
 	return c.sock.take(), frame, msg
 }
 
